@@ -139,7 +139,9 @@ type hEnv struct {
 func newHEnv(cfg hStoreCfg) (*hEnv, error) {
 	e := &hEnv{cfg: cfg, liveStart: time.Now().UnixNano()}
 	huge := 1000 * time.Hour
-	gcI, promI, life := huge, huge, huge
+	// the expiry goroutine never runs in an ordinary history (the driver calls the passes itself), but the stores are given a
+	// REALISTIC peer lifetime: the clocks of a history run far beyond it, and a member stays a member until a pass removes it
+	gcI, promI, life := huge, huge, 5*time.Minute
 	if cfg.Live {
 		gcI, promI, life = hLiveInterval, hLiveInterval, hLiveLifetime
 	}
